@@ -1,3 +1,4 @@
+import Resynth.Lemmas.StmtsKeep
 import Resynth.Lemmas.TotalStmt
 import Resynth.Props.C09
 /-!
@@ -51,10 +52,10 @@ theorem runStmts_ok (fs : Fs) (ls : LoopSt) (h : LoopOk ls) :
   obtain ⟨hws, hwc⟩ := takeResults_wf ls.cfg h.wf
   have ha := addStmts_ok fs ls.cfg.takeResults.1 ls.st hws h.st
   simp only
-  cases hr : addStmts ⟨Gen.lib, fs⟩ ls.st ls.cfg.takeResults.1 with
-  | ok st' => rw [hr] at ha; exact ⟨.take h.reach, hwc, ha⟩
-  | err e l => exact NoPanic_failure _ _ _ _
-  | panic s => rw [hr] at ha; exact ha.elim
+  rcases hr : addStmtsKeep ⟨Gen.lib, fs⟩ ls.st ls.cfg.takeResults.1 with ⟨st', _ | ⟨⟨e, l⟩ | s⟩⟩
+  · rw [(addStmtsKeep_none_iff _ _ _ _).1 hr] at ha; exact ⟨.take h.reach, hwc, ha⟩
+  · exact NoPanic_failure _ _ _ _
+  · rw [addStmtsKeep_panic hr] at ha; exact ha.elim
 
 theorem lineLoop_ok (fs : Fs) : ∀ (lines : List Bytes) (ls : LoopSt) (lno : Nat), LoopOk ls →
     match lineLoop ⟨Gen.lib, fs⟩ ls lno lines with
